@@ -36,6 +36,8 @@ pub fn build(ctl: &'static Ctrl, params: &Value) -> Instance {
     let unparker_co = params["unparker_co"].as_bool().unwrap_or(false);
     let canceller = params["canceller"].as_bool().unwrap_or(false);
     let dur_units = params["dur"].as_u64().unwrap_or(1);
+    // explicit duration in ns (sub-millisecond, non-integral, zero), overrides `dur`
+    let dur_ns = params["dur_ns"].as_u64();
     let sh = Arc::new(Shared { rounds: StdMutex::new(vec![]), cur: AtomicUsize::new(usize::MAX), handle: StdMutex::new(None), cancel_issued: AtomicUsize::new(0), bad: StdMutex::new(vec![]) });
     let mut actors = vec![];
     let sh2 = sh.clone();
@@ -56,7 +58,7 @@ pub fn build(ctl: &'static Ctrl, params: &Value) -> Instance {
             sh2.rounds.lock().unwrap().push(Round { blocker: Some(b.clone()), unparks_done: 0, returned: None });
             sh2.cur.store(i, SeqCst);
             may::verif::pt("pk.round", 0, i, 0);
-            let d = Duration::from_nanos(dur_units * UNIT_NS);
+            let d = Duration::from_nanos(dur_ns.unwrap_or(dur_units * UNIT_NS));
             let t0 = ctl.vnow();
             let res: String = match (kind2.as_str(), op.as_str()) {
                 ("blocker", "park") => format!("{:?}", b.park(None)),
@@ -157,6 +159,7 @@ pub fn build(ctl: &'static Ctrl, params: &Value) -> Instance {
     };
     let sh4 = sh.clone();
     let sh5 = sh.clone();
+    let round_ops: Vec<String> = params["rounds"].as_array().unwrap().iter().map(|v| v.as_str().unwrap().to_string()).collect();
     Instance {
         opts,
         actors,
@@ -193,7 +196,11 @@ pub fn build(ctl: &'static Ctrl, params: &Value) -> Instance {
                     // completed (and nobody cancelled it)
                     let i = sh4.cur.load(SeqCst);
                     let done = if i != usize::MAX && i < rounds.len() { rounds[i].unparks_done } else { 0 };
-                    if who.iter().any(|w| w == "p") && (done > 0 || sh4.cancel_issued.load(SeqCst) > 0) {
+                    let timed_round = i != usize::MAX && i < round_ops.len() && round_ops[i] != "park";
+                    if who.iter().any(|w| w == "p") && parker_co && timed_round {
+                        // virtual time has been advanced past every pending timer and the parker still sleeps
+                        v.push(Violation { kind: "lost_timeout".into(), detail: format!("the parker sleeps for ever in the timed round {i} ({}): its time-out can no longer fire", round_ops[i]) });
+                    } else if who.iter().any(|w| w == "p") && (done > 0 || sh4.cancel_issued.load(SeqCst) > 0) {
                         v.push(Violation { kind: "lost_wakeup".into(), detail: format!("the parker sleeps in round {i} although {done} unpark(s) on this round's blocker/handle have returned (cancels issued: {})", sh4.cancel_issued.load(SeqCst)) });
                     } else if who.iter().any(|w| w != "p") {
                         v.push(Violation { kind: "hang".into(), detail: format!("logical deadlock, unfinished: {who:?}") });
